@@ -40,6 +40,23 @@ theorem offline_only (c : Conn) (b : Bytes) (h : c.q.connected = true ∨ c.hasS
 theorem restored_queues_like_native (b : Bytes) (c' : Conn) (h : restore fresh b = (c', .rc 0)) :
     Lemmas.SendQueue.Inv c'.q := Lemmas.SmBlob.restored_inv b c' h
 
+/-- "the restored queues behave like native ones", at full strength: start from ANY accepted blob
+    and do ANYTHING with the restored connection afterwards (connect, user and library sends, loop
+    iterations under any accept schedule, drops, SM on/off, disconnects — the restored connection
+    is offline, so until `xmpp_connect_*` (which, like for a native queue, starts from an empty
+    send queue) sends are refused and the histories that matter are the queue-inspection calls;
+    the statement holds for every history all the same).  At every point the queue
+    invariant holds, and the bytes on the wire followed by the bytes still queued are exactly the
+    texts handed in — where what has been "handed in" starts with the restored unsent elements in
+    their saved order (`restoredHist`), followed by whatever was queued later. -/
+theorem restored_then_fifo (b : Bytes) (c' : Conn) (h : restore fresh b = (c', .rc 0))
+    (ops : List Op) :
+    let hN := ops.foldl stepH (restoredHist c')
+    Lemmas.SendQueue.Inv hN.st ∧
+      hN.wire ++ pending hN.st.queue = (hN.ghost.map (·.2)).flatten ∧
+      ∃ later, hN.ghost.map (·.1) = c'.q.queue.map (·.uid) ++ later :=
+  Lemmas.SmBlob.restored_then_fifo b c' h ops
+
 /-! ### pinning and non-vacuity -/
 
 /-- the type tags and the version prefix of the format -/
@@ -66,5 +83,11 @@ example : (restore fresh demoBlob.dropLast).2 = .rc (-2) ∧
           (restore fresh (demoBlob ++ [0])).1.q.queue = [] := by decide
 /-- a blob that ends exactly where the next field should start (finding D15) -/
 example : (restore fresh (demoBlob.take 30)).2 = .rc (-2) := by decide
+
+/-- the restored demo connection under the queue API: the oldest unsent element comes back with its
+    exact text, and the history invariant carries on -/
+example : (step (Lemmas.SmBlob.restoredHist (restore fresh demoBlob).1).st (.drop .oldest)).2
+    = .dropped (some (cs ['a','b'])) := by decide
+example : (Lemmas.SmBlob.restoredHist (restore fresh demoBlob).1).ghost = [(0, cs ['a','b'])] := by decide
 
 end Strophe.C16
